@@ -131,4 +131,81 @@ def run(facts):
             res.bad(key + "|dropfn", b.loc(), "stored drop fn does not re-box Owned<T>")
     else:
         res.bad(key + "|dropfn", b.loc(), "expected exactly one stored fn pointer instantiated at T, found %s" % [f.get("full") for f in fns])
+    raw_block_then_user_code(res, facts)
     return res
+
+
+def raw_block_then_user_code(res, facts):
+    """Every function of the crate that leaks a freshly boxed control block into a raw pointer (`Box::into_raw(Box::new(Owned { .. }))`) and
+    afterwards runs user code (an unresolved trait method of a type parameter, a closure handed in by the caller) must have built the
+    handle that owns the block before, and the user call's unwind edge must drop that handle: otherwise a panic in the user code leaks
+    the block and the owner inside it (C03: released exactly once, nothing is leaked; C17: a panicking impl cannot make the crate leak).
+    `from_owner` is the instance on the tree; a constructor added later (`from_owner_with(owner, view)`) is held to the same rule."""
+    from .r_a2 import all_control_blocks, ty_head
+    cbs = all_control_blocks(facts)
+    handles = roles.handle_types(facts)
+    n = 0
+    for b in facts.fn_bodies():
+        if facts.is_test(b) or b.kind == "closure":
+            continue
+        raws = []
+        for bi, t in b.calls():
+            fn = callee(t)
+            if fn and (fn.get("res") or fn)["path"] == "alloc::boxed::Box::<T>::into_raw" and ty_head((fn.get("args") or [""])[0]) in cbs and not b.blocks[bi]["cleanup"]:
+                raws.append(bi)
+        if not raws:
+            continue
+        cfg = cfg_of(b)
+        eb = ExprBuilder(b, facts, inline=False)
+        users = []
+        for bi, t in b.calls():
+            if b.blocks[bi]["cleanup"]:
+                continue
+            fn = callee(t)
+            if fn is None:
+                continue
+            unresolved = "res" in fn and fn["res"] is None
+            closure_call = fn["name"] in ("call_once", "call_mut", "call") and "core::ops::function" in fn.get("path", "")
+            if (unresolved or closure_call) and any(cfg.reaches(r_, bi) for r_ in raws):
+                users.append((bi, t, fn))
+        if not users:
+            continue
+        hs = []
+        for bi, blk in enumerate(b.blocks):
+            for si, s_ in enumerate(blk["stmts"]):
+                if s_["k"] == "assign" and s_["rv"]["k"] == "agg" and s_["rv"].get("adt") in handles:
+                    f = dict(zip(s_["rv"]["fields"], s_["rv"]["ops"]))
+                    data = eb.operand(f["data"], (bi, si)) if "data" in f else None
+                    if data is not None and any(x[0] == "call" and x[1] == "alloc::boxed::Box::<T>::into_raw" for x in walk(data)):
+                        hs.append((bi, si, s_["pl"]["l"]))
+        for (ubi, t, fn) in users:
+            n += 1
+            key = "%s|user code after the raw block (%s)" % (b.id, fn["name"])
+            loc = (ubi, len(b.blocks[ubi]["stmts"]))
+            owners = [h for h in hs if cfg.loc_dominates((h[0], h[1]), loc)]
+            if not owners:
+                res.bad(key, b.loc(ubi), "%s runs while the control block exists only as a raw pointer: if it panics, the block and the owner inside it are leaked "
+                                         "(build the handle first, as from_owner does)" % fn["name"])
+                continue
+            u = t.get("unwind")
+            dropped = False
+            if isinstance(u, int):
+                seen, st = set(), [u]
+                while st:
+                    x = st.pop()
+                    if x in seen:
+                        continue
+                    seen.add(x)
+                    tt = b.blocks[x]["term"]
+                    if tt["k"] == "drop" and tt["ty"] in handles and tt["pl"]["l"] in [h[2] for h in owners]:
+                        dropped = True
+                    if isinstance(tt.get("target"), int):
+                        st.append(tt["target"])
+                    if tt["k"] == "switch":
+                        st.extend(x_[1] for x_ in tt["targets"])
+                        st.append(tt["otherwise"])
+            if dropped:
+                res.ok(key, b.loc(ubi), "the handle that owns the block exists and is dropped on the unwind edge", nontrivial=True)
+            else:
+                res.bad(key, b.loc(ubi), "a panic in %s does not unwind into the Drop of the handle that owns the block" % fn["name"])
+    res.floor("user calls after a raw control block", n, 1)
